@@ -21,8 +21,8 @@ var nameRe = regexp.MustCompile(`\{([a-z]+)\}`)
 func validatorLevel(run *core.Run, tier string) {
 	scratch := scen.MkScratch("c15")
 	defer os.RemoveAll(scratch)
-	prefixes := [][2]string{{"/§/p", "/§/p"}, {"/§/p", "/§/q"}, {"/§/{t}", "/§/p"}}
-	routes := []string{"/x", "/{id}", "/x/{id}", "/{id}/x"}
+	prefixes := [][2]string{{"/§/p", "/§/p"}, {"/§/p", "/§/q"}, {"/§/{t}", "/§/p"}, {"/§/p/", "/§/p"}}
+	routes := []string{"/x", "/{id}", "/x/{id}", "/{id}/x", "x"}
 	verbs := [][2]string{{"GET", "GET"}, {"GET", "POST"}}
 	var cases []scen.Case
 	type rt struct{ name, verb, full string }
